@@ -731,7 +731,7 @@ func init() {
 					sp.Ops = append(sp.Ops, skAddW(0, 1, 0.5), skAddW(0, -7.3, 2), skAddW(0, 1e3, 0.0009765625), skAddW(0, 0.1, 3), skAddMany(0, 7.3, 512),
 						skAddIgnored(0, 50, 0), skAddIgnored(0, math.NaN(), 1), skAddIgnored(0, math.Inf(1), 1), skAddIgnored(0, -math.MaxFloat64, 0.5), skAddIgnored(0, 1, -1),
 						skAdd(1, 2), skAdd(1, -9), skAddW(1, 0.1, 3),
-						skMerge(0, 1), skMerge(1, 0), skCopy(0, 1), skCopy(1, 0), skClear(0), skReweight(0, 0.5), skReweight(0, 2), skReweight(0, 3),
+						skMerge(0, 1), skMerge(1, 0), skCopy(0, 1), skCopy(1, 0), skClear(0), skReweight(0, 0.5), skReweight(0, 2), skReweight(0, 3), skReweight(0, 0.0009765625),
 						skCodec(0, 1, false, false), skCodec(0, 1, true, true), skCodec(1, 0, true, false), skCodec(0, 0, true, false), skRead(0), skReadEncode(0))
 					if orderFree(sp.Stores) {
 						// ChangeMapping produces non-dyadic weights, whose sums depend on the
